@@ -8,10 +8,17 @@ import json, os, shutil, subprocess, sys, time
 from pathlib import Path
 
 VERIF = Path(__file__).resolve().parent.parent
-pid = sys.argv[1].upper()
-checks = [a.upper() for a in sys.argv[2:]] or [pid]
-src = Path("/tmp/seeded_out") / pid
-wt = Path(f"/tmp/vs_{pid}")
+args = sys.argv[1:]
+srcroot, name = Path("/tmp/seeded_out"), None
+if "--src" in args:
+    i = args.index("--src"); srcroot = Path(args[i + 1]); del args[i:i + 2]
+if "--name" in args:
+    i = args.index("--name"); name = args[i + 1]; del args[i:i + 2]
+pid = args[0].upper()
+checks = [a.upper() for a in args[1:]] or [pid]
+name = name or pid
+src = srcroot / pid
+wt = Path(f"/tmp/vs_{name}")
 demo = next((p for p in [src / "demo.py", src / "demo_test.py"] if p.exists()), None)
 assert demo and (src / "patch.diff").exists(), "deliverables missing"
 
@@ -49,7 +56,7 @@ ok = res["demo_on_clean_tree"]["exit"] == 0 and res["demo_on_patched_tree"]["exi
 res["confirmed"] = ok
 print(json.dumps(res, indent=1))
 if ok:
-    dst = VERIF / "seeded" / pid
+    dst = VERIF / "seeded" / name
     dst.mkdir(parents=True, exist_ok=True)
     shutil.copyfile(src / "patch.diff", dst / "patch.diff")
     shutil.copyfile(demo, dst / demo.name)
